@@ -217,9 +217,9 @@ fn prefix() -> impl Strategy<Value = Vec<Op>>
         2 => Just(vec![]),
         2 => Just(vec![Op::Build { goal: None }]),
         2 => Just(vec![Op::Build { goal: None }, Op::Clean { goal: None }]),
-        3 => (any::<u16>(), 0u8..5).prop_map(|(leaf, content)| vec![Op::Build { goal: None }, Op::Edit { leaf, content }]),
-        3 => (any::<u16>(), 0u8..5).prop_map(|(leaf, content)| vec![Op::Build { goal: None }, Op::Edit { leaf, content }, Op::Build { goal: None }, Op::Revert { leaf }]),
-        2 => (any::<u16>(), 0u8..5, any::<u16>()).prop_map(|(t, content, rule)| vec![Op::Build { goal: None }, Op::Tamper { t, content }, Op::Retag { rule }]),
+        3 => (any::<u16>(), 0u8..gen::N_CONTENTS).prop_map(|(leaf, content)| vec![Op::Build { goal: None }, Op::Edit { leaf, content }]),
+        3 => (any::<u16>(), 0u8..gen::N_CONTENTS).prop_map(|(leaf, content)| vec![Op::Build { goal: None }, Op::Edit { leaf, content }, Op::Build { goal: None }, Op::Revert { leaf }]),
+        2 => (any::<u16>(), 0u8..gen::N_CONTENTS, any::<u16>()).prop_map(|(t, content, rule)| vec![Op::Build { goal: None }, Op::Tamper { t, content }, Op::Retag { rule }]),
         4 => gen::ops(OpMix { rule_edits: true, ruler_dir_damage: true, cleans: true, delete_leaf: false, swaps: 1, dir_ops: 0, orphan: false }, 8),
     ]
 }
